@@ -131,8 +131,8 @@ ListVariant(E0, X0, lsub, canon, ctag, D) ==
       may  == G(imp \cup inb)
   IN R0(TRUE, ctag, D) @@
      [one |-> FALSE, must |-> must, may |-> may, exact |-> must \cup may,
-      sel   |-> G(IF lsub THEN E \cap X ELSE E),
-      nosel |-> G(impl \ (IF lsub THEN {Inbox} ELSE X))]
+      sel   |-> G((IF lsub THEN E \cap X ELSE E) \cap (ex \cup inb)),
+      nosel |-> G((impl \ (IF lsub THEN {Inbox} ELSE X)) \cap imp)]
 
 HasTok(S, tok) == \E n \in S : tok \in Range(n)
 
@@ -160,10 +160,14 @@ ListVariants(m, s, lsub, ref, pat) ==
 
 \* the answer pymap gives: every applicable deviation, plain concatenation,
 \* everything optional is returned
+\* (r.dev: the SMALLEST set of deviations that explains this answer)
+SameAnswer(v, w) == /\ v.tag = w.tag /\ v.one = w.one /\ v.must = w.must
+                    /\ v.may = w.may /\ v.sel = w.sel /\ v.nosel = w.nosel
 ListAsIs(m, s, lsub, ref, pat) ==
   LET vs == ListVariants(m, s, lsub, ref, pat)
       v  == CHOOSE v \in vs : v.tag = {} /\ \A w \in vs : w.dev \subseteq v.dev
-  IN v
+      eq == {w \in vs : SameAnswer(v, w)}
+  IN CHOOSE w \in eq : \A u \in eq : Cardinality(w.dev) <= Cardinality(u.dev)
 
 Probe(m, s) == [list |-> ListAsIs(m, s, FALSE, <<>>, <<"*">>),
                 lsub |-> ListAsIs(m, s, TRUE, <<>>, <<"*">>)]
@@ -198,10 +202,17 @@ CreateOutcomes(a) ==
                           sub)})
   ELSE CreatePlain(Norm(a))
 
+SameEffect(o, p) == o.r.ok = p.r.ok /\ o.m = p.m /\ o.s = p.s
+\* prefer an allowed outcome with the same effect to a deviation
+Undeviate(o, outs) ==
+  LET eq == {p \in outs : p.r.dev = {} /\ SameEffect(o, p)}
+  IN IF eq = {} THEN o
+     ELSE CHOOSE p \in eq : \A q \in eq : Cardinality(p.r.tag) <= Cardinality(q.r.tag)
+
 CreateAsIs(a) ==
   LET outs == CreateOutcomes(a) IN
   IF \E o \in outs : o.r.dev # {}
-  THEN CHOOSE o \in outs : o.r.dev # {}
+  THEN Undeviate(CHOOSE o \in outs : o.r.dev # {}, outs)
   ELSE CHOOSE o \in outs : o.r.tag = {}
 
 DeleteOutcomes(a) ==
@@ -302,7 +313,7 @@ ListOutAsIs(lsub, ref, pat) == Same(ListAsIs(mbx, sub, lsub, ref, pat))
 Apply(c, o) == /\ last = Null
                /\ mbx' = o.m /\ sub' = o.s
                /\ last' = [cmd |-> c, r |-> o.r]
-               /\ probe' = Probe(o.m, o.s)
+               /\ probe' = IF o.m = mbx /\ o.s = sub THEN probe ELSE Probe(o.m, o.s)
 
 Forget == last # Null /\ last' = Null /\ UNCHANGED <<mbx, sub, probe>>
 
@@ -488,13 +499,17 @@ SimListQ    == {<<n_e, n_pc>>, <<n_e, n_st>>, <<n_aS, n_pc>>, <<n_a, n_st>>, <<n
                 <<n_e, <<"%", "/", "%">>>>, <<n_e, <<"*", "b">>>>, <<n_e, n_i>>, <<n_e, n_e>>, <<n_aS, n_e>>,
                 <<n_e, <<"a", "/", "*">>>>, <<n_e, <<"%", "b">>>>, <<Inbox, <<"/", "%">>>>, <<n_e, n_a>>, <<n_e, n_an>>}
 
-\* the matcher: every well-formed name over NameAlpha exists at once (and is
-\* subscribed); every pattern over PatAlpha; plus each name alone and a few
-\* pairs (implied parents)
-MNames(A, L)   == {n \in Seqs(A, L) : WellFormed(n)}
+\* the matcher: all well-formed names over an alphabet that start with the same
+\* token exist at once (and are subscribed), and each hierarchical name alone
+\* (implied parents); every pattern over the pattern alphabet
+\* (a run of control characters is a different story for the encoder: C18)
+NoNLRun(n)     == \A k \in 1..(Len(n) - 1) : ~(n[k] = "n" /\ n[k + 1] = "n")
+MNames(A, L)   == {n \in Seqs(A, L) : WellFormed(n) /\ NoNLRun(n)}
 MQueries(A, L) == {<<n_e, p>> : p \in Seqs(A, L)}
                   \cup {<<r, p>> : r \in {n_a, n_aS}, p \in Seqs(A, L - 1)}
-MInit(S)  == {<<S, S>>} \cup {<<{n}, {n}>> : n \in {x \in S : SEP \in Range(x)}}
+\* (grouped by first token: superiors and inferiors share it)
+MInit(S)  == {<<G, G>> : G \in {{n \in S : n[1] = t} : t \in {x[1] : x \in S}}}
+             \cup {<<{n}, {n}>> : n \in {x \in S : SEP \in Range(x)}}
 
 MatchQuickNames == MNames({"a", "b", "/", "*", "n"}, 3)
 MatchQuickQ     == MQueries({"a", "b", "/", "*", "%"}, 3) \cup {<<n_e, <<"a", "n">>>>, <<n_e, <<"a", "n", "*">>>>, <<n_e, <<"*", "n">>>>, <<n_e, <<"%", "n", "%">>>>}
